@@ -585,6 +585,7 @@ class ExprHeap:
 
     # ------------------------------------------------------------------ find_type / all_changed
     def c_find_type(self, I, args, kwargs, f=None):
+        I.ps.memo["abstraction:find_type"] = True  # facts about opaque subtrees: a concretised witness does not carry them
         o, t = args
         if not isinstance(t, ClassVal):
             raise OutOfSubset("find_type with non-class")
